@@ -2,14 +2,15 @@ SPECIFICATION MCSpec
 CONSTANTS
  BNErrs = {"bnval", "bnptr"}
  Variant = "coded"
- MCTypes = {"proposer", "randao"}
+ MCTypes = {"aggregator", "prepare_aggregator"}
+ MCMain = "attester"
  MCIncl = {"proposer"}
  MCPKs = {"a"}
  MCErrs = {"nil", "other"}
  MCRoots = {"x", "y"}
  MCN = 2
- MaxCalls = 3
-INVARIANTS SuccessIffFinal StuckStep ReasonOfStep Dependency Participation AnalysedOnce
+ MCSteps = {1, 5, 7, 10}
+ MaxCalls = 4
+INVARIANTS SuccessIffFinal StuckStep ReasonOfStep Dependency Participation AnalysedOnce AnalysedHadDeadline
 PROPERTIES MCOnlyAtDeadline MCLateDropped
-VIEW View
 CHECK_DEADLOCK FALSE
